@@ -163,6 +163,10 @@ func runC01(c *hc.Ctx) error {
 		cfg.IgnoreOutsideGrid = false
 		evalC01(c, g, poly, kind, ids, cfg)
 	}
+	// component level: spike removal on every chain over 3 centres (length <= 10) and 4 centres (length <= 8) through
+	// the hook, so that the model the theorems are about is held to the code also where chains revisit a centre often
+	chainStream(c, 3, c.N(10, 12), 0, true, false)
+	chainStream(c, 4, c.N(8, 9), 0, true, false)
 	return nil
 }
 
@@ -191,7 +195,7 @@ func evalC01(c *hc.Ctx, g *Grid, poly [][]Pt, kind string, ids []int, cfg snap.C
 			}
 		}
 	}
-	c.Case(snapCaseTerm(g, poly, ids, cfg, r), caseJSON(g, poly, ids, cfg, r))
+	c.Case("SnapC ("+snapCaseTerm(g, poly, ids, cfg, r)+")", caseJSON(g, poly, ids, cfg, r))
 	c.Sample(caseJSON(g, poly, ids, cfg, r))
 }
 
@@ -291,6 +295,9 @@ func runC04(c *hc.Ctx) error {
 		cfg.IgnoreOutsideGrid = false
 		evalC04(c, g, poly, kind, ids, cfg)
 	}
+	// component level, as for C01: "nothing is lost" depends on what spike removal keeps
+	chainStream(c, 3, c.N(10, 12), 0, true, false)
+	chainStream(c, 4, c.N(8, 9), 0, true, false)
 	return nil
 }
 
@@ -371,7 +378,7 @@ func evalC04(c *hc.Ctx, g *Grid, poly [][]Pt, kind string, ids []int, cfg snap.C
 			attribute(hc.Violation{What: fmt.Sprintf("location farther than one pixel from the boundary changed coverage (tile matrix %d)", id), Input: caseJSON(g, poly, ids, cfg, r), Observed: bad}, polysEdges(r.ByID[id])...)
 		}
 	}
-	c.Case(snapCaseTerm(g, poly, ids, cfg, r), caseJSON(g, poly, ids, cfg, r))
+	c.Case("SnapC ("+snapCaseTerm(g, poly, ids, cfg, r)+")", caseJSON(g, poly, ids, cfg, r))
 	c.Sample(caseJSON(g, poly, ids, cfg, r))
 }
 
